@@ -105,7 +105,10 @@ def frag(kind):
             # two more planning problems whose goal regions are EQUAL to each other (separate objects), as in a cooperative set
             for pid in (102, 103):
                 sp["pps"].append(spec.pp(pid, x=6.0, y=1.0, o=0.2, goal_states=[spec.goal_state(position=["rect", 3.0, 2.0, 17.0, 1.5, 0.25], orientation=["aiv", -0.25, 0.75])]))
-        elif kind in ("base", "shared-boundary-array"):
+        elif kind == "stopline-without-points":
+            # a stop line that only says "at the end of the lanelet" (no start / end points), as the file formats allow
+            sp["lanelets"].append(dict(spec.lane(7, x0=0.0, y0=12.0), stop_line={"start": None, "end": None, "marking": "SOLID", "sign_ref": [], "light_ref": []}))
+        elif kind in ("base", "shared-boundary-array", "dynamic-with-history"):
             pass
         else:
             raise KeyError(kind)
@@ -114,6 +117,12 @@ def frag(kind):
 
 def post_build(kinds, sc):
     """components that cannot be expressed as a spec: two adjacent lanelets sharing ONE ndarray object as common boundary"""
+    if "dynamic-with-history" in kinds:
+        # a dynamic obstacle that was advanced twice with update_initial_state: its two earlier initial states are kept in its history
+        o = spec.mk_obstacle({"role": "dynamic", "id": 36, "type": "CAR", "shape": ["rect", 4.0, 2.0, 0.0, 0.0, 0.0], "initial_state": spec.init_state(x=1.0, y=1.25, o=0.05, t=0)})
+        o.update_initial_state(spec.mk_state(spec.init_state(x=2.5, y=1.5, o=0.125, t=1)))
+        o.update_initial_state(spec.mk_state(spec.init_state(x=4.0, y=1.75, o=0.25, t=2)))
+        sc.add_objects(o)
     if "shared-boundary-array" in kinds:
         import numpy as np
         from commonroad.scenario.lanelet import Lanelet
@@ -124,7 +133,7 @@ def post_build(kinds, sc):
         sc.add_objects(Lanelet(hi, (hi + mid) / 2, mid, 6, adjacent_right=5, adjacent_right_same_direction=True))
 
 
-KINDS = ["base", "shared-boundary-array", "lanelet+stopline", "sign", "light", "static-rect", "static-shapes", "dynamic-trajectory", "dynamic-set", "phantom", "environment",
+KINDS = ["base", "shared-boundary-array", "lanelet+stopline", "stopline-without-points", "dynamic-with-history", "sign", "light", "static-rect", "static-shapes", "dynamic-trajectory", "dynamic-set", "phantom", "environment",
          "uncertain", "planning"]
 
 
